@@ -196,26 +196,38 @@ def run_c11(pid, tier, seed):
     shards = 4 if tier == "quick" else 16
     corpus = [c for c in load_corpus("tbuffer", None)]
     jobs = [(n // shards, seed * 977 + k, corpus if k == 0 else []) for k in range(shards)]
-    with multiprocessing.Pool(min(16, shards)) as pool:
-        outs = pool.map(_c11_worker, jobs)
+    nf = 600 if tier == "quick" else 48000
+    fjobs = [(nf // shards, seed * 353 + k, [], "C11") for k in range(shards)]
+    with multiprocessing.Pool(min(16, 2 * shards)) as pool:
+        a1 = pool.map_async(_c11_worker, jobs)
+        a2 = pool.map_async(_c14_worker, fjobs)
+        outs, fouts = a1.get(), a2.get()
     res = dict(evaluations=0, distinct_nontrivial=0, samples=[], traces=0, disagreements=[], violations=[], known=[])
     tags, ops = collections.Counter(), collections.Counter()
-    for o in outs:
+    for o in outs + fouts:
         res["evaluations"] += o["evals"]; res["traces"] += o["evals"]; res["distinct_nontrivial"] += o["sigs"]
         res["disagreements"] += o["dis"]; res["violations"] += o["viol"]; res["samples"] += o["samples"]
+    for o in outs:
         tags.update(o["tags"]); ops.update(o["ops"])
+    ftags = collections.Counter()
+    for o in fouts:
+        ftags.update(o["tags"]); ops.update({"fleet:" + k: v for k, v in o["ops"].items()})
+    res["fleet_tags"] = dict(ftags)
     res["rule"] = ("online-generated histories on the real Buffer edge (capacity 1-4, FIFO/LIFO, delay source constant / callable / "
                    "generator with delays 0-5 incl. zero, 1-3 callers, reserve/put/get/cancel, kernel pops, time advances, and "
                    "PROBE = can_put()/can_get()/occupancy() followed by probe reservations) replayed on the extracted timed model "
                    "TBuffer + regenerated query fragments; every history is non-trivial (contains a put or a probe); distinct = "
                    "distinct (capacity, mode, delay source, situations reached, op-kind sequence)")
     res["distribution"] = dict(histories_reaching=dict(tags), micro_ops=dict(ops))
-    res["domain"] = "Buffer edge over BufferStore; Fleet.can_put/can_get are covered by the regenerated-fragment theorems and by C14's harness"
+    res["distribution"]["fleet_histories_reaching"] = res.pop("fleet_tags")
+    res["rule"] += "; plus histories on the real Fleet edge with the same probes (harness/tfleet.py)"
+    res["domain"] = "Buffer edge over BufferStore and Fleet edge over FleetStore"
     return res
 
 
 def _c14_worker(args):
-    n, seed, corpus = args
+    n, seed, corpus = args[:3]
+    pid = args[3] if len(args) > 3 else "C14"
     rng = random.Random(seed)
     cases = list(corpus) + [tfleet.gen_case(rng, rng.randrange(10, 80)) for _ in range(n)]
     out = dict(evals=0, tags=collections.Counter(), sigs=set(), dis=[], viol=[], samples=[], ops=collections.Counter())
@@ -243,8 +255,9 @@ def _c14_worker(args):
                 out["ops"][o[0]] += 1
             if r["dis"]:
                 i, da, db = r["dis"]
-                out["dis"].append(dict(case=c, op_index=i, micro_op=list(r["micro"][i]), impl=da, model=db))
-            v = tfleet.oracle(c, r["micro"], r["impl"])
+                if pid == "C14" or r["micro"][i][0] in ("PROBE", "RPUT", "RGET", "CPUT", "CGET"):
+                    out["dis"].append(dict(case=c, op_index=i, micro_op=list(r["micro"][i]), impl=da, model=db))
+            v = [x for x in tfleet.oracle(c, r["micro"], r["impl"]) if x[1].startswith("C11:") == (pid == "C11")]
             if v:
                 i, msg = v[0]
                 out["viol"].append(dict(**{"class": "tfleet"}, message=msg, op_index=i, case=c,
